@@ -21,7 +21,7 @@ func main() {
 	runner.Main(runner.Config{
 		ID:    "C12",
 		Level: "model_checking",
-		Rule:  "differ/applier: every (old,new) over {0,1} with lengths 0..8 (quick: 0..6) x Partitions 0..16 and over {0,1,2} with lengths 0..5 (quick: 0..4) x Partitions {0,1,2,3,5,16}, SuffixSortConcurrency cycling over {0,1,-1} and fresh/reused DiffContext alternating with the case ordinal, run through the real DiffContext.Do; oracle per run: no panic/crash, Do returns nil, exactly one Eof message and it is last, sum(len add+len copy)=len(new), a reference applier and the real PatchContext.Patch both yield new, and for every message index i a fresh IndividualPatchContext started at the OldOffset saved after i messages yields the same remainder. The region old=\"\" x new!=\"\" of the same space is enumerated by the sub-check empty-old in groups (one group = one journaled case) because every member kills the process on the unrepaired tree. Structured large family: old in {period 1,3,256, pseudo-random} x size {64,4096,128KiB-1,128KiB+1,300KiB,2MiB} x new in {same,prefix,suffix,every k-th byte changed,block moved,unrelated,empty,longer} x Partitions {0,1,2,7,16} (restart oracle at all indices for series of <=24 messages, else at {0,1,2,n/4,n/2,3n/4,n-2,n-1,n}). Scaled-cache variants (overlay builds with only lruChunkSize/lruNumEntries of NewIndividualPatchContext changed to chunk x entries = 1x2, 2x3, 3x2, 4x1; geometry verified at run time through a recording reader): every (old,new) over {0,1} with lengths 0..6 (quick: 0..5) x Partitions {0,2,3} and the 64/4096-byte members of the large family through the same oracles, so that the real applier reads through a cache that evicts constantly; plus every valid hand-made series of 1..5 (quick: 1..4) messages with add lengths {0,1,2,3,5}, a one-byte copy and every seek target over a 9-byte old file of distinct bytes, applied with the real IndividualPatchContext and compared with direct reads of the old file. Read cache: explicit-state BFS to fixpoint over the real lrufile for chunk 1..4 x entries 1..3 x file size 0..9 (quick: 0..6) x underlying reader {bytes.Reader, *os.File}; operations Seek(o,Start) o=-1..size+1, Seek(+-1,Current), Seek(-o,End), Read(n) n in {1,chunk-1,chunk,chunk+1,2chunk+1}, Reset(other file); states are shadow states (file, offset, LRU-ordered resident chunks with slots), every successor is produced by replaying the shortest path on a fresh lrufile plus one operation and comparing data, count, error, position and Stats() with the model. Non-trivial: differ case = some series has both a non-empty Add and a non-empty Copy; hand-made series = its adds read more distinct chunks than the cache holds and one add starts below the end of an earlier one; cache geometry = the search contains an eviction, a read spanning chunks and a hit.",
+		Rule:  "differ/applier: every (old,new) over {0,1} with lengths 0..8 (quick: 0..6) x Partitions 0..16 and over {0,1,2} with lengths 0..5 (quick: 0..4) x Partitions {0,1,2,3,5,16}, SuffixSortConcurrency cycling over {0,1,-1} and fresh/reused DiffContext alternating with the case ordinal, run through the real DiffContext.Do; oracle per run: no panic/crash, Do returns nil, exactly one Eof message and it is last, sum(len add+len copy)=len(new), a reference applier and the real PatchContext.Patch both yield new, and for every message index i a fresh IndividualPatchContext started at the OldOffset saved after i messages yields the same remainder. The region old=\"\" x new!=\"\" of the same space is enumerated by the sub-check empty-old in groups (one group = one journaled case) because every member kills the process on the unrepaired tree. Medium scope: the first 32/48/64/96 symbols of the Thue-Morse word, the Fibonacci word and an LFSR sequence against every rotation, every deletion/duplication of a segment of 1,2,5,9,17 symbols at every third position, single flips, self-concatenations and the other two words (matches whose forward and backward extensions overlap). Structured large family: old in {period 1,3,256, pseudo-random} x size {64,4096,128KiB-1,128KiB+1,300KiB,2MiB} x new in {same,prefix,suffix,every k-th byte changed,block moved,unrelated,empty,longer} x Partitions {0,1,2,7,16} (restart oracle at all indices for series of <=24 messages, else at {0,1,2,n/4,n/2,3n/4,n-2,n-1,n}). Scaled-cache variants (overlay builds with only lruChunkSize/lruNumEntries of NewIndividualPatchContext changed to chunk x entries = 1x2, 2x3, 3x2, 4x1; geometry verified at run time through a recording reader): every (old,new) over {0,1} with lengths 0..6 (quick: 0..5) x Partitions {0,2,3} and the 64/4096-byte members of the large family through the same oracles, so that the real applier reads through a cache that evicts constantly; plus every valid hand-made series of 1..5 (quick: 1..4) messages with add lengths {0,1,2,3,5}, a one-byte copy and every seek target over a 9-byte old file of distinct bytes, applied with the real IndividualPatchContext and compared with direct reads of the old file. Read cache: explicit-state BFS to fixpoint over the real lrufile for chunk 1..4 x entries 1..3 x file size 0..9 (quick: 0..6) x underlying reader {bytes.Reader, *os.File}; operations Seek(o,Start) o=-1..size+1, Seek(+-1,Current), Seek(-o,End), Read(n) n in {1,chunk-1,chunk,chunk+1,2chunk+1}, Reset(other file); states are shadow states (file, offset, LRU-ordered resident chunks with slots), every successor is produced by replaying the shortest path on a fresh lrufile plus one operation and comparing data, count, error, position and Stats() with the model. Non-trivial: differ case = some series has both a non-empty Add and a non-empty Copy; hand-made series = its adds read more distinct chunks than the cache holds and one add starts below the end of an earlier one; cache geometry = the search contains an eviction, a read spanning chunks and a hit.",
 		Assumptions: []string{
 			"byte values outside the small alphabets only occur in the large family (seeded pseudo-random streams and periodic patterns)",
 			"goroutine interleavings of the scanner are not controlled here (free-running); the schedule dimension belongs to the E2 part of C12",
